@@ -59,6 +59,8 @@ pub fn install() {
                 panicked: false,
             });
             CUR.with(|c| c.set(Some(id)));
+            // bounded liveness in counted steps for the searches that carry the library's hook
+            adf_bdd::verif::arm(2_000_000);
             CV.notify_all();
             loop {
                 let rel = g.release_all || g.tasks.iter().any(|t| t.id == id && t.released);
@@ -132,7 +134,7 @@ pub fn release_and_wait(id: u64) -> Option<TaskRec> {
         return None;
     }
     CV.notify_all();
-    let deadline = std::time::Instant::now() + Duration::from_secs(60);
+    let deadline = std::time::Instant::now() + Duration::from_secs(15);
     loop {
         if let Some(t) = g.tasks.iter().find(|t| t.id == id) {
             if t.ended {
@@ -155,7 +157,7 @@ pub fn release_all_and_wait() -> bool {
         t.released = true;
     }
     CV.notify_all();
-    let deadline = std::time::Instant::now() + Duration::from_secs(60);
+    let deadline = std::time::Instant::now() + Duration::from_secs(15);
     while g.tasks.iter().any(|t| !t.ended) {
         let now = std::time::Instant::now();
         if now >= deadline {
